@@ -99,3 +99,31 @@ def _s(rng, hints):
 
 
 SEARCH = {k: _s for k in NATIVE}
+
+
+def coeff_unit(inp):
+    """coeff normalisation: 1 at lag 0, CORRELATION and xcorr agree, negative lags are conjugates"""
+    import numpy as np
+    import spectrum
+    from spectrum.correlation import CORRELATION, xcorr
+    from .native_common import close
+    rng = np.random.RandomState(2)
+    cx = bool(inp.get("complex"))
+    for N in (int(inp.get("N", 7)), 5, 12, 33):
+        x = rng.randn(N) + (1j * rng.randn(N) if cx else 0)
+        L = N - 1
+        r = np.asarray(CORRELATION(x, maxlags=L, norm="coeff"))
+        t, lags = xcorr(x, maxlags=L, norm="coeff")
+        t = np.asarray(t)
+        want = np.array([np.sum(x[k:] * np.conj(x[:N - k])) for k in range(N)]) / np.sum(np.abs(x) ** 2)
+        if abs(r[0] - 1) > 1e-12 or not close(r, want, 1e-10):
+            return False, "CORRELATION(coeff) N=%d: r[0]=%r, max|diff to definition| %.3g" % (N, r[0], float(np.max(np.abs(r - want))))
+        if len(t) != 2 * L + 1 or abs(t[L] - 1) > 1e-12 or not close(t[L:], r, 1e-10) or not close(t[:L][::-1], np.conj(r[1:]), 1e-10):
+            return False, "xcorr(coeff) N=%d: lag 0 = %r; disagrees with CORRELATION or is not Hermitian" % (N, t[L] if len(t) > L else None)
+    return True, "coeff normalisation: unit at lag 0, consistent, Hermitian"
+
+
+NATIVE = dict(NATIVE)
+SEARCH = dict(SEARCH)
+NATIVE["coeff_unit"] = coeff_unit
+SEARCH["coeff_unit"] = lambda rng, h: dict(h)
